@@ -121,6 +121,12 @@ def gen_start(r):
         names = VALID_NAMES + ['junk.ipynb', 'missing.ipynb', '/dev/null', '{ROOT}/bait/z.ipynb', 'empty.ipynb']
         p['difftool_args'] = {'base': r.choice(VALID_NAMES + ['/dev/null']) if r.random() < 0.8 else r.choice(names),
                               'remote': r.choice(VALID_NAMES) if r.random() < 0.8 else r.choice(names)}
+        if r.random() < 0.4:
+            # what `nbdiff-web <gitref> <gitref>` passes: open streams instead of names
+            for k in ('base', 'remote'):
+                if r.random() < 0.8:
+                    nm = r.choice(VALID_NAMES)
+                    p['difftool_args'][k] = r.choice([{'stream_file': 'work/' + nm}, {'stream_of': 'work/' + nm, 'name': nm + ' (HEAD)'}])
     elif mode == 'mergeweb':
         closable = r.choice([True, True, False])
         p['show_base'] = r.choice([True, False])
@@ -256,6 +262,9 @@ def gen_other_request(r, prefix, base_url):
 def gen_scenario(r, nreq=None):
     files, nbs = gen_files(r)
     start = gen_start(r)
+    for a in (start['params'].get('difftool_args') or {}).values():
+        if isinstance(a, dict) and 'stream_of' in a:
+            a['stream_text'] = files[a.pop('stream_of')]['t']
     bu = start['params'].get('base_url', '/')
     prefix = '' if bu == '/' else bu.rstrip('/')
     n = r.randint(4, 10) if nreq is None else nreq
